@@ -692,6 +692,24 @@ func (ev *evaluator) callExpr(n *ast.CallExpr) *Val {
 				}
 			}
 			ev.errorf("rangepos(): loop header has no string iterator")
+		case "visited":
+			// visited(k): key k has already been produced by the map iteration of this loop
+			if ev.blk == nil {
+				ev.errorf("visited() outside a loop clause")
+			}
+			k := ev.ev(n.Args[0])
+			for _, ins := range ev.blk.Instrs {
+				if nx, ok := ins.(*ssa.Next); ok {
+					itv := ev.x.get(ev.fr, nx.Iter)
+					if itv.Iter != nil && itv.Iter.isMap {
+						mt := itv.Iter.mapVal.Typ.Underlying().(*types.Map)
+						_, _, doms, _ := ev.x.mapSorts(mt)
+						vis := ev.x.ctx.hread(ev.st, itv.Iter.cell+".visited", doms, itv.Iter.ref)
+						return &Val{T: Select(vis, k.T), Typ: boolT}
+					}
+				}
+			}
+			ev.errorf("visited(): loop header has no map iterator")
 		case "fst", "snd":
 			v := ev.ev(n.Args[0])
 			if v.Tuple == nil || len(v.Tuple) < 2 {
